@@ -803,5 +803,67 @@ def rule_search(ctx):
     return res.finish(1)
 
 
+def rule_unit(ctx):
+    """A dataset built from records alone gets placeholder targets: one per *sample*.  Sized by anything else (the
+    element count `len()` of a matrix, the column count) the targets are no longer parallel to the records, and every
+    operation that cuts both by position tears them apart."""
+    res = RuleResult("R-C02-unit", "placeholder targets created next to records are sized by the records' sample count (len_of(Axis(0)) / nrows / nsamples), not by an element or column count")
+    F = ctx.facts()
+    n = 0
+    for fn in F.all_fns():
+        if fn["d"]["krate"] != "linfa" or fn.get("exp"):
+            continue
+        c = fn["crate"]
+        r = Render(c)
+        inits = {}
+        for y in walk(fn["body"]):
+            if y.get("k") == "LetStmt" and y.get("init") is not None and y["pat"].get("k") == "Bind":
+                inits[y["pat"]["local"]] = y["init"]
+        for lit in walk(fn["body"]):
+            if lit.get("k") != "Struct" or not (c.dfn(lit.get("def")) or {}).get("path", "").endswith("DatasetBase"):
+                continue
+            fields = {f_["name"]: f_["e"] for f_ in lit.get("fields") or []}
+            if "targets" not in fields or "records" not in fields:
+                continue
+            t = peel_refs(fields["targets"])
+            if t.get("k") == "Path" and t.get("local") in inits:
+                t = peel_refs(inits[t["local"]])
+            if t.get("k") != "Call" or strip(t["f"]).get("k") != "Path":
+                continue
+            d0 = c.dfn(strip(t["f"]).get("def")) or {}
+            if d0.get("krate") != "ndarray" or d0.get("name") not in ("default", "zeros", "from_elem", "ones", "uninit") or not t["args"]:
+                continue
+            rec = peel_refs(fields["records"])
+            rl = rec.get("local")
+            ext = t["args"][0]
+            uses_records = any(z.get("k") == "Path" and z.get("local") == rl for z in walk(ext)) if rl is not None else False
+            if not uses_records:
+                continue
+            n += 1
+            key = fn_key(fn)
+            res.instance("%s : placeholder targets next to `%s`" % (key, rec.get("name")))
+            calls = [z for z in walk(ext) if z.get("k") == "MethodCall" and peel_refs(z["recv"]).get("local") == rl]
+            verdict = None
+            for z in calls:
+                if z["name"] in ("nrows", "nsamples"):
+                    verdict = "ok"
+                elif z["name"] == "len_of":
+                    ax = r.e(z["args"][0]) if z["args"] else ""
+                    verdict = "ok" if "Axis(0)" in ax.replace(" ", "") else "bad:len_of(%s)" % ax[-8:]
+                elif z["name"] in ("len", "ncols", "nfeatures", "ndim"):
+                    verdict = "bad:%s()" % z["name"]
+                elif z["name"] in ("dim", "shape", "raw_dim"):
+                    verdict = verdict or "unknown"
+            if verdict == "ok":
+                res.ok()
+            elif verdict and verdict.startswith("bad:"):
+                res.violate("%s : targets-sized-by-%s" % (key, "element-count" if "len()" in verdict else "other-extent"), "the placeholder targets are sized by `%s.%s`, not by the number of samples: for a matrix with more than one column they are not parallel to the records" % (rec.get("name"), verdict[4:]), fn_loc(fn, t.get("ln")))
+            else:
+                res.undecided("%s : placeholder-extent" % key, "the extent of the placeholder targets (`%s`) was not classified (fail closed)" % r.e(ext)[:40], fn_loc(fn, t.get("ln")))
+    if n < 1:
+        res.missing_anchor("a DatasetBase literal with placeholder targets sized from its records (From<ArrayBase>)")
+    return res.finish(1)
+
+
 def rules(tier):
-    return [rule_align, rule_filter, rule_columns, rule_layout, rule_domain, rule_memorder, rule_extent, rule_search, rule_counted]
+    return [rule_align, rule_filter, rule_columns, rule_layout, rule_domain, rule_memorder, rule_extent, rule_search, rule_counted, rule_unit]
